@@ -65,11 +65,11 @@ def oracle(req, a):
 
 
 # ---- references in every position, over fixture packages that export identical, self-identifying symbols ----
-FIXTURES = ["probe/fx", "probe/fx2/pkg", "probe/exp1/os", "probe/deep/fx", "probe/x-y/v2", "probe/a.b/fx"]
+FIXTURES = ["probe/fx", "probe/fx2/pkg", "probe/exp1/os", "probe/deep/fx", "probe/x-y/v2", "probe/a.b/fx", "probe/gopkg/yaml.v3"]
 TABLES = [
     # aliases that are proper string prefixes of the template's own imports (o/os, fm/fmt, github/github.com, contex/context)
     # must leave those alone; aliases EQUAL to a template import are the recorded finding D10 (C01) and are not used here
-    {"fx": "probe/fx", "deep": "probe/deep", "exp": "probe/exp1", "exp1": "probe/fx2", "p": "probe", "o": "probe/exp1/os", "pro": "probe/fx2", "x-y": "probe/x-y", "a.b": "probe/a.b/fx", "github": "probe/fx"},
+    {"fx": "probe/fx", "deep": "probe/deep", "exp": "probe/exp1", "exp1": "probe/fx2", "p": "probe", "o": "probe/exp1/os", "pro": "probe/fx2", "x-y": "probe/x-y", "a.b": "probe/a.b/fx", "github": "probe/fx", "gp": "probe/gopkg"},
     {"fx": "probe/deep/fx", "f": "probe/fx", "a.b": "probe/a.b", "v2": "probe/x-y/v2", "fm": "probe/fx2/pkg", "probe": "probe/exp1", "contex": "probe/fx", "strcon": "probe/fx"},
     {},
 ]
@@ -90,7 +90,7 @@ def spellings(path, tbl):
     return out
 
 
-def position_cfg(rng, tbl, local):
+def position_cfg(rng, tbl, local, fixed=None):
     """one configuration: 6-10 services, each naming a package (by a random spelling) in one position"""
     svcs, decs, fns, params, used = {}, [], {}, {}, set()
     expect = {}
@@ -99,7 +99,9 @@ def position_cfg(rng, tbl, local):
         cands += [("", '"."')] * 6
     rng.shuffle(cands)
     kinds = ["ctor", "value", "ptrvalue", "struct", "type", "valuearg", "decorator", "function", "typeonly"]
-    for k, (pth, sp) in enumerate(cands[: rng.randint(7, 11)]):
+    if fixed is not None:
+        cands = list(fixed)
+    for k, (pth, sp) in enumerate(cands if fixed is not None else cands[: rng.randint(7, 11)]):
         kind = kinds[k % len(kinds)] if k < len(kinds) else rng.choice(kinds)
         n = "s%02d" % k
         if kind != "typeonly":
@@ -153,6 +155,15 @@ def level_b(ctx):
     for i in range(n):
         tbl = TABLES[i % len(TABLES)]
         cfg, used, expect = position_cfg(ctx.rng, tbl, local=(i % 2 == 0))
+        ops = [["counters"]] + [["param", p] for p in sorted(cfg.get("parameters", {}))] + [["get", s_] for s_ in cfg["services"] if not cfg["services"][s_].get("todo")] + [["counters"]]
+        items.append((cfg, ops))
+        metas.append((used, expect))
+    # package paths whose LAST element contains a dot (gopkg.in/yaml.v3 style) and aliases with dots, by every spelling, each in
+    # every position kind (the spellings are rotated against the kinds)
+    dotted = [(pth, sp) for pth in ("probe/gopkg/yaml.v3", "probe/a.b/fx") for sp in spellings(pth, TABLES[0])]
+    for rot in range(3 if ctx.quick else 9):
+        fixed = [dotted[(j + rot) % len(dotted)] for j in range(9)]
+        cfg, used, expect = position_cfg(ctx.rng, TABLES[0], False, fixed=fixed)
         ops = [["counters"]] + [["param", p] for p in sorted(cfg.get("parameters", {}))] + [["get", s_] for s_ in cfg["services"] if not cfg["services"][s_].get("todo")] + [["counters"]]
         items.append((cfg, ops))
         metas.append((used, expect))
